@@ -90,12 +90,15 @@ pub fn tick() {
 pub struct Ctx {
     /// where a shard flushes partial reports (so that a watchdog kill loses little)
     pub flush_to: Option<PathBuf>,
-    pub last_flush_evals: u64,
+    pub last_flush_evals: std::cell::Cell<u64>,
+    pub last_flush_ms: std::cell::Cell<u64>,
     pub id: &'static str,
     pub tier: Tier,
     pub seed: u64,
     pub shard: (u64, u64),
     pub only_case: Option<u64>,
+    /// skip every case <= this one (set when a shard is respawned after a hung case)
+    pub resume_after: Option<u64>,
     pub report: Report,
     pub start: Instant,
 }
@@ -103,7 +106,7 @@ pub struct Ctx {
 impl Ctx {
     pub fn new(id: &'static str, tier: Tier, seed: u64, shard: (u64, u64), only_case: Option<u64>) -> Self {
         tick();
-        Ctx { flush_to: None, last_flush_evals: 0, id, tier, seed, shard, only_case, report: Report::default(), start: Instant::now() }
+        Ctx { flush_to: None, last_flush_evals: std::cell::Cell::new(0), last_flush_ms: std::cell::Cell::new(0), id, tier, seed, shard, only_case, resume_after: None, report: Report::default(), start: Instant::now() }
     }
     pub fn quick(&self) -> bool {
         self.tier == Tier::Quick
@@ -121,7 +124,8 @@ impl Ctx {
         if let Some(k) = self.only_case {
             return vec![k];
         }
-        (0..total).filter(|k| k % self.shard.1 == self.shard.0).collect()
+        let after = self.resume_after;
+        (0..total).filter(|k| k % self.shard.1 == self.shard.0 && after.map_or(true, |a| *k > a)).collect()
     }
     pub fn rng(&self, case: u64) -> Rng {
         self.at_case(case);
@@ -133,22 +137,32 @@ impl Ctx {
     pub fn evals(&mut self, n: u64) {
         self.report.evaluations += n;
         tick();
-        if self.flush_to.is_some() && self.report.evaluations - self.last_flush_evals >= 40 {
+        if self.flush_to.is_some() && (self.report.evaluations - self.last_flush_evals.get() >= 40 || now_ms() - self.last_flush_ms.get() > 500) {
             self.flush();
         }
     }
     /// announce the case being worked on (watchdog diagnostics)
     pub fn at_case(&self, k: u64) {
+        if self.flush_to.is_some() && self.report.evaluations != self.last_flush_evals.get() {
+            self.flush(); // a watchdog kill during case k must not lose the cases before it
+        }
         CURRENT_CASE.store(k, std::sync::atomic::Ordering::Relaxed);
         tick();
     }
-    pub fn flush(&mut self) {
+    pub fn flush(&self) {
         if let Some(p) = &self.flush_to {
-            self.last_flush_evals = self.report.evaluations;
+            self.last_flush_evals.set(self.report.evaluations);
+            self.last_flush_ms.set(now_ms());
             let tmp = p.with_extension("tmp");
             if std::fs::write(&tmp, serde_json::to_vec(&self.report).unwrap_or_default()).is_ok() {
                 let _ = std::fs::rename(&tmp, p);
             }
+        }
+    }
+    /// debugging aid: ILV_TRACE=1 prints every case before it runs
+    pub fn trace(&self, f: impl FnOnce() -> String) {
+        if std::env::var("ILV_TRACE").is_ok() {
+            eprintln!("[trace] {}", f());
         }
     }
     pub fn count(&mut self, key: &str) {
@@ -198,6 +212,18 @@ pub struct Meta {
     pub assumptions: &'static [&'static str],
     /// below this many distinct non-trivial cases the run is inconclusive
     pub floor: u64,
+    /// watchdog (ms without progress) for (quick, thorough); 0 = default
+    pub watchdog: (u64, u64),
+}
+impl Meta {
+    pub fn watchdog_ms(&self, tier: Tier) -> u64 {
+        let w = if tier == Tier::Quick { self.watchdog.0 } else { self.watchdog.1 };
+        if w == 0 {
+            if tier == Tier::Quick { 20_000 } else { 60_000 }
+        } else {
+            w
+        }
+    }
 }
 
 #[derive(Debug, Deserialize)]
@@ -210,6 +236,14 @@ struct KnownFinding {
 #[derive(Debug, Deserialize)]
 struct KnownFile {
     findings: Vec<KnownFinding>,
+}
+
+/// exact match, or prefix match when the listed signature ends in `*`
+fn sig_matches(listed: &str, got: &str) -> bool {
+    match listed.strip_suffix('*') {
+        Some(p) => got.starts_with(p),
+        None => listed == got,
+    }
 }
 
 fn load_known() -> Vec<KnownFinding> {
@@ -246,7 +280,7 @@ pub fn finalize(meta: &Meta, tier: Tier, seed: u64, report: &Report, wall_s: f64
     let mut new_viol: Vec<&Violation> = Vec::new();
     for v in &report.violations {
         if let Some(k) =
-            known.iter().find(|k| k.status == "open" && k.property == meta.id && k.signature == v.signature)
+            known.iter().find(|k| k.status == "open" && k.property == meta.id && sig_matches(&k.signature, &v.signature))
         {
             let e = known_seen.entry(v.signature.clone()).or_insert((k.what.clone(), 0));
             e.1 += 1;
@@ -285,7 +319,11 @@ pub fn finalize(meta: &Meta, tier: Tier, seed: u64, report: &Report, wall_s: f64
     coverage.insert("evaluations".into(), json!(report.evaluations));
     coverage.insert("distinct_nontrivial".into(), json!(distinct));
     coverage.insert("rule".into(), json!(meta.rule));
-    coverage.insert("samples".into(), json!(report.samples));
+    let mut samples = report.samples.clone();
+    if samples.is_empty() {
+        samples.push(json!({"note": "no non-trivial case was sampled in this run"}));
+    }
+    coverage.insert("samples".into(), json!(samples));
     coverage.insert("counters".into(), json!(report.counters));
     coverage.insert(
         "known_findings_seen".into(),
